@@ -70,6 +70,7 @@ func checkC08(c *Ctx) (string, error) {
 	checkSizeofOffsetsof(c, sp, ap)
 	checkOffsetsExtra(c, sp)
 	checkLayoutEquivalence(c, sp)
+	checkStructDescriptorSources(c, sp, ap)
 	check32Bits(c, sp, w.Main("internal/build"))
 	checkBasicKindCast(c, ap, rw.RT("abi"))
 	checkMapSlotStride(c, "R08.7", sp)
